@@ -91,6 +91,23 @@ pub struct FillCase {
     pub vclass: u8,
     /// general configuration used in addition to the verbatim-only one
     pub cfg: CfgSpec,
+    /// address of the byte slice handed to `fill_le_bytes`, modulo 32 (slices need not be aligned to anything)
+    #[serde(default)]
+    pub byte_align: u8,
+    /// address of the integer slice handed to `fill_interleaved`, in i32 units modulo 8
+    #[serde(default)]
+    pub int_align: u8,
+}
+
+/// A copy of `data` that starts at an address congruent to `off` (in elements) modulo `modulus` elements of
+/// a 32-byte line; returns the backing vector and the start index.
+fn placed<T: Copy + Default>(data: &[T], off: usize, modulus: usize) -> (Vec<T>, usize) {
+    let mut backing = vec![T::default(); data.len() + 2 * modulus];
+    let sz = std::mem::size_of::<T>();
+    let base = backing.as_ptr() as usize / sz;
+    let start = (0..modulus).find(|s| (base + s) % modulus == off % modulus).unwrap_or(0);
+    backing[start..start + data.len()].copy_from_slice(data);
+    (backing, start)
 }
 
 fn values(n: usize, bps: usize, vclass: u8, rng: &mut Sm64) -> Vec<i32> {
@@ -147,6 +164,7 @@ pub fn check_fill(case: &FillCase) -> Outcome {
     let (ch, bps, cap) = (case.channels, case.bps, case.capacity);
     out.class(format!("ch:{ch}"));
     out.class(format!("fill-bytes-per-sample:{}", case.nbytes));
+    out.class(format!("byte-slice-address-mod-4:{}", case.byte_align % 4));
     let Ok(info) = StreamInfo::new(44100, ch, bps) else {
         out.viol("generator-unsound", "StreamInfo::new rejected a valid format");
         return out;
@@ -191,9 +209,12 @@ pub fn check_fill(case: &FillCase) -> Outcome {
         }
         prev_len = len;
         let by_bytes = case.use_bytes.get(step).copied().unwrap_or(true);
-        let bytes = to_bytes(&v, case.nbytes);
+        let (bytes_backing, b0) = placed(&to_bytes(&v, case.nbytes), case.byte_align as usize, 32);
+        let bytes = &bytes_backing[b0..b0 + v.len() * case.nbytes];
+        let (v_backing, v0) = placed(&v, case.int_align as usize, 8);
+        let v_placed = &v_backing[v0..v0 + v.len()];
         let r = catch(|| {
-            fb_int.fill_interleaved(&v).map_err(|e| format!("{e:?}"))?;
+            fb_int.fill_interleaved(v_placed).map_err(|e| format!("{e:?}"))?;
             if by_bytes {
                 fb_byte.fill_le_bytes(&bytes, case.nbytes).map_err(|e| format!("{e:?}"))?;
             } else {
@@ -316,8 +337,8 @@ pub fn fill_strategy() -> BoxedStrategy<FillCase> {
                 1 => Just(1usize),
                 2 => (1usize..=17).prop_map(move |d| capacity.saturating_sub(d).max(1)),
             ];
-            (proptest::collection::vec(len, 2..=6), proptest::collection::vec(prop_oneof![4 => Just(true), 1 => Just(false)], 6..=6))
-                .prop_map(move |(lens, use_bytes)| FillCase { channels, bps, nbytes, capacity, lens, use_bytes, seed, vclass, cfg: cfg.clone() })
+            (proptest::collection::vec(len, 2..=6), proptest::collection::vec(prop_oneof![4 => Just(true), 1 => Just(false)], 6..=6), prop_oneof![2 => Just(0u8), 3 => 0u8..32], prop_oneof![2 => Just(0u8), 2 => 0u8..8])
+                .prop_map(move |(lens, use_bytes, byte_align, int_align)| FillCase { channels, bps, nbytes, capacity, lens, use_bytes, seed, vclass, cfg: cfg.clone(), byte_align, int_align })
         })
         .boxed()
 }
@@ -325,7 +346,7 @@ pub fn fill_strategy() -> BoxedStrategy<FillCase> {
 pub fn run(ctx: &Ctx) {
     ctx.rule(
         "(a) generated (config, input) with 1..=8 channels and widths 8/12/16/20/24 (1..=3 bytes per sample) encoded from an integer-fill source, a byte-fill source and MemSource, in single-thread, multi-thread and frame-level mode: the streams must be byte-identical; \
-         (b) fill histories on ONE FrameBuf (and Context): 2..=6 fills with lengths in {capacity, 1..=capacity, 0, 1, capacity-d} delivered as integers to one buffer and as packed LE bytes (native width, or 4 bytes per sample at FrameBuf level) to another; after every fill filled_size, the Context (MD5, sample count, frame number) and the frames encoded from both buffers and from a brand-new buffer (verbatim-only and a generated configuration) must agree, and the verbatim dump must decode to the delivered block; \
+         (b) fill histories on ONE FrameBuf (and Context): 2..=6 fills with lengths in {capacity, 1..=capacity, 0, 1, capacity-d} delivered as integers to one buffer and as packed LE bytes (native width, or 4 bytes per sample at FrameBuf level; the byte slice placed at every address modulo 32, the integer slice at every i32 offset modulo 8) to another; after every fill filled_size, the Context (MD5, sample count, frame number) and the frames encoded from both buffers and from a brand-new buffer (verbatim-only and a generated configuration) must agree, and the verbatim dump must decode to the delivered block; \
          non-trivial = (a) a shorter final read and a negative sample, (b) a full block followed by a shorter one and a negative sample; distinct by hash of the case",
     );
     ctx.assume("Source contract: full blocks except the last, one fill call per read; byte fills into a Context use the Context's own byte width (other widths are C17's)");
